@@ -216,8 +216,16 @@ def _shapes():
             s = s.where(t.c.y == bpz(nv))
         return s
 
+    def s_anon_clash(nvs):
+        # an explicit bind whose name equals the name an anonymous bind of the same statement will be given
+        # (x_1, y_1 ...): must be rejected (CompileError) or delivered correctly, never merged
+        s = sa.select(t.c.x).where(t.c.x == B("x_1", nvs[0][1], type_=sa.Integer)).where(t.c.x == nvs[0][1] + 50)
+        for nv in nvs[1:]:
+            s = s.where(t.c.y == bp(nv))
+        return s.where(t.c.y == B("y_1", 7100, type_=sa.Integer)).where(t.c.y > 7200)
+
     return [s_select_list, s_where, s_repeat, s_cte, s_subq_order_limit, s_having, s_in_expanding, s_literal_execute, s_insert, s_update, s_text, s_union,
-            s_typed_where, s_typed_in, s_tuple_in]
+            s_typed_where, s_typed_in, s_tuple_in, s_anon_clash]
 
 
 _SH = None
@@ -310,7 +318,13 @@ def _deliver(style: str, shape_i: int, names: Tuple[str, ...]) -> bool:
     if shape_i == 10:  # text(): names are fixed p0..pk
         nvs = [("p%d" % i, 7001 + i) for i in range(len(names))]
     stmt = shapes()[shape_i](nvs)
-    literal = str(stmt.compile(dialect=d, compile_kwargs={"literal_binds": True}))
+    import sqlalchemy.exc as saexc
+
+    try:
+        literal = str(stmt.compile(dialect=d, compile_kwargs={"literal_binds": True}))
+        stmt.compile(dialect=d)
+    except saexc.CompileError:
+        return True  # documented refusal (bind-name conflict)
     del dbapi.log[:]
     with eng.connect() as c:
         c.execute(stmt)
@@ -431,7 +445,7 @@ def harnesses(tier: str) -> List[Harness]:
 
 def _shape_names():
     return ["select_list", "where", "repeat", "cte", "subq_order_limit", "having", "in_expanding", "literal_execute", "insert", "update", "text", "union",
-            "typed_where", "typed_in", "tuple_in"]
+            "typed_where", "typed_in", "tuple_in", "anon_clash"]
 
 
 def classify(hname, args, rep):
